@@ -136,13 +136,16 @@ xresp0_pipe_init(void *arg, nni_pipe *npipe, void *s)
 	nni_aio_init(&p->aio_getq, xresp0_getq_cb, p);
 	nni_aio_init(&p->aio_send, xresp0_send_cb, p);
 
+	// Set these first: the pipe is closed and finalized by the core (which
+	// looks at the socket) even when this function fails.
+	p->npipe = npipe;
+	p->psock = s;
+
 	if ((rv = nni_msgq_init(&p->sendq, 2)) != 0) {
 		xresp0_pipe_fini(p);
 		return (rv);
 	}
 
-	p->npipe = npipe;
-	p->psock = s;
 	return (0);
 }
 
